@@ -236,8 +236,9 @@ def post_tx_parse(args, kwargs, pre, out):
     d = compare_parsed(out[1], ref)
     if d:
         ctx.violation("tx-parse-wrong-field:" + d.split("].")[-1].split("[")[0], f"field {d}", case)
-    if args[1].tell() - pos != end:
-        ctx.violation("tx-parse-consumed-wrong-length", f"consumed {args[1].tell() - pos} expected {end}", case)
+    stream = args[1] if len(args) > 1 else kwargs["s"]
+    if stream.tell() - pos != end:
+        ctx.violation("tx-parse-consumed-wrong-length", f"consumed {stream.tell() - pos} expected {end}", case)
     ctx.case(case)
 
 
